@@ -435,7 +435,10 @@ def kernel_text(spec):
 
 
 def alg_names(spec):
-    """Algorithm-layer actual arguments, in invoke order; returns (decl lines, use lines, actual list)."""
+    """Algorithm-layer actual arguments of one kernel call, in invoke order.  Returns (uses, decls, actuals);
+    decls is a list of (variable name, declaration).  An argument may carry an explicit algorithm-layer
+    name ("alg", "extent_alg", "dir_alg"; spec["qr_alg"][shape]) so that several kernels of one invoke
+    share the same object."""
     uses, decls, actuals = {}, [], []
 
     def use(mod, sym):
@@ -451,60 +454,187 @@ def alg_names(spec):
                 use("constants_mod", a["prec"])
                 actuals.append(lit)
                 continue
-            nm = {"real": "rsc", "integer": "isc", "logical": "lsc"}[a["dtype"]] + str(i)
+            nm = a.get("alg") or {"real": "rsc", "integer": "isc", "logical": "lsc"}[a["dtype"]] + str(i)
             use("constants_mod", a["prec"])
-            decls.append("%s(%s) :: %s" % (a["dtype"], a["prec"], nm))
+            decls.append((nm, "%s(%s) :: %s" % (a["dtype"], a["prec"], nm)))
             actuals.append(nm)
         elif a["k"] == "field":
-            nm = "f%d" % i
+            nm = a.get("alg") or "f%d" % i
             mod, ty = FIELD_TYPE[a["prec"]]
             use(mod, ty)
-            decls.append("type(%s) :: %s%s" % (ty, nm, "(%d)" % a["vec"] if a["vec"] > 1 else ""))
+            decls.append((nm, "type(%s) :: %s%s" % (ty, nm, "(%d)" % a["vec"] if a["vec"] > 1 else "")))
             actuals.append(nm)
             if a["stencil"]:
-                decls.append("integer(i_def) :: %s_extent" % nm)
-                actuals.append("%s_extent" % nm)
+                ext = a.get("extent_alg") or "%s_extent" % nm
+                decls.append((ext, "integer(i_def) :: %s" % ext))
+                actuals.append(ext)
                 if a["stencil"] == "xory1d":
-                    decls.append("integer(i_def) :: %s_direction" % nm)
-                    actuals.append("%s_direction" % nm)
+                    dr = a.get("dir_alg") or "%s_direction" % nm
+                    decls.append((dr, "integer(i_def) :: %s" % dr))
+                    actuals.append(dr)
         elif a["k"] == "op":
-            nm = "op%d" % i
+            nm = a.get("alg") or "op%d" % i
             mod, ty = OP_TYPE[a["prec"]]
             use(mod, ty)
-            decls.append("type(%s) :: %s" % (ty, nm))
+            decls.append((nm, "type(%s) :: %s" % (ty, nm)))
             actuals.append(nm)
         else:
-            nm = "cma%d" % i
+            nm = a.get("alg") or "cma%d" % i
             use("columnwise_operator_mod", "columnwise_operator_type")
-            decls.append("type(columnwise_operator_type) :: %s" % nm)
+            decls.append((nm, "type(columnwise_operator_type) :: %s" % nm))
             actuals.append(nm)
     for s in spec["shapes"]:
         if s in QR_TYPE:
             mod, ty = QR_TYPE[s]
             use(mod, ty)
-            nm = "qr_" + s.split("_")[-1] + "v"
-            if nm not in [d.split("::")[1].strip() for d in decls]:
-                decls.append("type(%s) :: %s" % (ty, nm))
+            nm = (spec.get("qr_alg") or {}).get(s) or "qr_" + s.split("_")[-1] + "v"
+            decls.append((nm, "type(%s) :: %s" % (ty, nm)))
             actuals.append(nm)
     return uses, decls, actuals
 
 
-def alg_text(spec):
-    uses, decls, actuals = alg_names(spec)
-    L = ["program alg_%s" % spec["name"]]
+def alg_text_group(specs):
+    """One algorithm file with ONE invoke calling every kernel of `specs` (shared variables declared once)."""
+    uses, decls, calls = {}, {}, []
+    for spec in specs:
+        u, d, actuals = alg_names(spec)
+        for mod, syms in u.items():
+            for sym in syms:
+                uses.setdefault(mod, [])
+                if sym not in uses[mod]:
+                    uses[mod].append(sym)
+        for nm, decl in d:
+            if decls.setdefault(nm, decl) != decl:
+                raise ValueError("algorithm variable %s declared twice differently: %s / %s" % (nm, decls[nm], decl))
+        calls.append("%s_type(%s)" % (spec["name"], ", ".join(actuals)))
+    name = specs[0]["name"]
+    L = ["program alg_%s" % name]
     for mod, syms in uses.items():
         L.append("  use %s, only: %s" % (mod, ", ".join(syms)))
-    L.append("  use %s_mod, only: %s_type" % (spec["name"], spec["name"]))
+    for spec in specs:
+        L.append("  use %s_mod, only: %s_type" % (spec["name"], spec["name"]))
     L.append("  implicit none")
-    L += ["  " + d for d in decls]
-    call = "  call invoke( %s_type(%s) )" % (spec["name"], ", ".join(actuals))
-    # keep lines short
+    L += ["  " + d for d in decls.values()]
+    text = "  call invoke( " + ", ".join(calls) + " )"
     out = []
-    while len(call) > 100:
-        cut = call.rfind(",", 0, 100)
-        out.append(call[:cut + 1] + " &")
-        call = "       " + call[cut + 1:]
-    out.append(call)
+    while len(text) > 100:
+        cut = text.rfind(",", 0, 100)
+        out.append(text[:cut + 1] + " &")
+        text = "       " + text[cut + 1:]
+    out.append(text)
     L += out
-    L.append("end program alg_%s" % spec["name"])
+    L.append("end program alg_%s" % name)
     return "\n".join(L) + "\n"
+
+
+def alg_text(spec):
+    return alg_text_group([spec])
+
+
+# ------------------------------------------------------------------------------------- multi-kernel invokes
+def _name_args(spec, base):
+    """Give every argument an explicit algorithm-layer name (numbers start at `base`)."""
+    for i, a in enumerate(spec["args"], 1):
+        if a["k"] == "scalar":
+            a.setdefault("alg", {"real": "rsc", "integer": "isc", "logical": "lsc"}[a["dtype"]] + str(base + i))
+        else:
+            a.setdefault("alg", {"field": "f", "op": "op", "cma": "cma"}[a["k"]] + str(base + i))
+
+
+def _fresh(spec, idx, tag):
+    spec["name"] = "k%d%s_kernel" % (idx, tag)
+    spec["code"] = spec["name"] + "_code"
+
+
+def share_view(rng, base, idx, tag):
+    """Another kernel that is passed the SAME algorithm-layer objects as `base` (a general-purpose kernel) but
+    whose metadata sees them differently: other function spaces, access modes, stencil types (same extent
+    variable), other argument order, own meta_funcs / gh_shape (same quadrature objects)."""
+    import copy
+    sp = copy.deepcopy(base)
+    _fresh(sp, idx, tag)
+    sp["funcs"], sp["shapes"], sp["targets"], sp["refelem"], sp["mesh"] = [], [], None, [], []
+    for a in sp["args"]:
+        if a["k"] == "field":
+            a["fs"] = pick_fs(rng)
+            a["acc"] = rng.choice(field_accesses(a["fs"], "cell_column"))
+            a["stencil"] = rng.choice(STENCILS) if (a["acc"] == "read" and rng.random() < 0.5) else None
+        elif a["k"] == "op":
+            a["fs"], a["fs2"] = pick_fs(rng), pick_fs(rng)
+            a["acc"] = rng.choice(["read", "write", "readwrite"])
+    if rng.random() < 0.8:
+        rng.shuffle(sp["args"])
+    if rng.random() < 0.3 and len(sp["args"]) > 1:
+        sp["args"].pop(rng.randrange(len(sp["args"])))
+    if all(a["k"] == "scalar" for a in sp["args"]):
+        sp["args"].append(mk_field(rng, rng.choice(CONT + DISC), "cell_column", False, False, want_write=True,
+                                   allow_stencil=False))
+    ensure_written(rng, sp["args"], "cell_column")
+    _name_args(sp, 100 * (1 + "abc".index(tag)))
+    add_funcs(rng, sp)
+    add_props(rng, sp)
+    return sp
+
+
+def gen_shared_group(rng, idx):
+    """2-3 general-purpose kernels in one invoke sharing fields / vectors / operators / scalars / stencil
+    extents / quadrature objects, each with its own metadata view."""
+    mixed = rng.random() < 0.2
+    base = {"name": "", "mode": "multi", "operates_on": "cell_column", "args": [], "funcs": [], "shapes": [],
+            "targets": None, "refelem": [], "mesh": []}
+    _fresh(base, idx, "a")
+    gen_general(rng, base, mixed)
+    _name_args(base, 0)
+    group = [base] + [share_view(rng, base, idx, t) for t in "bc"[:rng.choice([1, 1, 2])]]
+    for sp in group:
+        sp["mode"] = "multi"
+        sp["mixed"] = any(a.get("prec") in ("r_solver", "r_tran", "r_bl", "r_phys") for a in sp["args"])
+    if rng.random() < 0.5:
+        group.reverse()
+    return group
+
+
+def _cma_kernel(rng, idx, tag, kind, view, shared_written):
+    """A CMA kernel of the given kind whose metadata sees the SHARED operator `cma1` on the spaces `view`."""
+    to, frm = view
+    sp = {"name": "", "mode": "multi_cma", "operates_on": "cell_column", "args": [], "funcs": [], "shapes": [],
+          "targets": None, "refelem": [], "mesh": [], "mixed": False}
+    _fresh(sp, idx, tag)
+    n0 = 100 * (1 + "abc".index(tag))
+    shared = {"k": "cma", "acc": "read", "fs": to, "fs2": frm, "alg": "cma1"}
+    if kind == "apply":
+        w = mk_field(rng, to, "cell_column", False, False, want_write=True, allow_stencil=False, allow_vec=False)
+        r = mk_field(rng, frm, "cell_column", False, False, want_write=False, allow_stencil=False, allow_vec=False)
+        sp["args"] = [w, r, shared]
+    elif kind == "mm":
+        own = {"k": "cma", "acc": rng.choice(["write", "readwrite"]), "fs": pick_fs(rng), "fs2": pick_fs(rng)}
+        sp["args"] = [shared, own] + ([mk_scalar(rng, False)] if rng.random() < 0.5 else [])
+        for a in sp["args"]:
+            if a["k"] == "scalar":
+                a["literal"] = False
+    else:   # assembly: writes the shared operator
+        shared["acc"] = rng.choice(["write", "readwrite"])
+        sp["args"] = [{"k": "op", "acc": "read", "fs": to, "fs2": frm, "prec": "r_def"}, shared]
+    rng.shuffle(sp["args"])
+    _name_args(sp, n0)
+    return sp
+
+
+def gen_cma_group(rng, idx):
+    """One invoke in which the SAME column-wise operator is passed to 2-3 CMA kernels whose metadata disagree
+    about its spaces ((a, b) / (b, b) / (a, a)), in either order."""
+    pool = ["any_space_1", "any_space_2", "w2", "w3", "w0", "any_discontinuous_space_1", "wtheta"]
+    a, b = rng.sample(pool, 2)
+    views = [(a, b), rng.choice([(b, b), (a, a)])]
+    if rng.random() < 0.3:
+        views.append(rng.choice([(a, b), (b, a), (a, a)]))
+    rng.shuffle(views)
+    group = []
+    for j, view in enumerate(views):
+        kind = rng.choice(["apply", "apply", "mm", "asm"] if j == 0 else ["apply", "apply", "mm"])
+        if kind == "apply" and view[0] == "wchi":
+            kind = "mm"
+        group.append(_cma_kernel(rng, idx, "abc"[j], kind, view, False))
+    return group
+
+
